@@ -59,6 +59,21 @@ IsDataThenFill(s, d) == /\ Len(s) >= Len(d)
                         /\ \A i \in (Len(d) + 1)..Len(s) : s[i] = PAD
 
 (***************************************************************************)
+(* What one call of the streaming blocker emits to the wrapped file, as a  *)
+(* pure function of its `remaining` counter r and the argument w           *)
+(* (one clause per branch of Block1014.write).                             *)
+(***************************************************************************)
+EmitWrite(r, w) ==
+    IF Len(w) < r THEN [out |-> w, rem |-> r - Len(w)]
+    ELSE LET first == SubSeq(w, 1, r) \o Pads(T)
+             rest  == SubSeq(w, r + 1, Len(w))
+             full  == IF Len(rest) = 0 THEN 0 ELSE (Len(rest) - 1) \div P
+             mid   == FoldLeft(LAMBDA acc, j : acc \o SubSeq(rest, (j - 1) * P + 1, j * P) \o Pads(T), <<>>, Idx(full))
+             last  == SubSeq(rest, full * P + 1, Len(rest))
+         IN  [out |-> TLCEval(first \o mid \o last), rem |-> P - Len(last)]
+EmitFinal(r) == [out |-> Pads(r + T), rem |-> P]
+
+(***************************************************************************)
 (* Integer skeleton of the streaming blocker (implementation-shaped,      *)
 (* lengths only): s = [d, rem, flen].                                      *)
 (***************************************************************************)
